@@ -5,6 +5,7 @@ import ast
 import re
 
 from vk import astx, numkind, callgraph, facts
+from vk.report import shape_rule
 from vk.algebra import Normalizer, bool_key, literals, spec_rat, NotClosedForm
 from vk.loader import AnalysisError
 from rules import c12
@@ -61,8 +62,11 @@ def r1_winner_filtered(ctx):
         ctx.check(good, f, rebuild[0] if rebuild else lp, f"{name}: every position keeps c iff c != winner", k,
                   f"position rebuild filter is `{k}`; documented: drop exactly the winner from every position")
         # emptied positions dropped
-        drop = [n for n in astx.walk_own(lp) if isinstance(n, astx.LCOMP) and isinstance(n.generators[0].iter, ast.Name)
-                and any("len(" in astx.u(t) for t in n.generators[0].ifs)]
+        rb_st = astx.stmt_of(rebuild[0], astx.parents(f.node)) if rebuild else None
+        rb_name = rb_st.targets[0].id if isinstance(rb_st, ast.Assign) and isinstance(rb_st.targets[0], ast.Name) else None
+        # the filter over the rebuilt ranking itself (whatever spelling its emptiness test has)
+        drop = [n for n in astx.walk_own(lp) if isinstance(n, astx.LCOMP) and len(n.generators) == 1 and rb_name is not None and astx.is_name(n.generators[0].iter, rb_name)
+                and n.generators[0].ifs and isinstance(n.generators[0].target, ast.Name) and astx.is_name(n.elt, n.generators[0].target.id)]
         good = False
         if len(drop) == 1:
             g = drop[0].generators[0]
@@ -93,6 +97,7 @@ def r3_exact(ctx):
             ctx.violated(f, e.node, f"{name}: inexact value reaches an exact sink", e.detail)
 
 
+@shape_rule
 def r4_random_rule(ctx):
     prog = ctx.prog
     f = prog.find_func("random_transfer")
@@ -207,15 +212,13 @@ def r5_weight_provenance(ctx):
     ctx.note(f"R5: {n} Ballot constructions in {len(funcs)} functions reachable from STV._run_step")
     # the condense accumulator: initialised Fraction(0), only += source weight
     f = prog.find_func("PreferenceProfile.condense_ballots")
-    acc = None
-    for nn in astx.walk_own(f.node):
-        if isinstance(nn, ast.AugAssign) and isinstance(nn.target, ast.Subscript) and isinstance(nn.op, ast.Add) and re.fullmatch(r"\w+\.weight", astx.u(nn.value)):
-            acc = nn
-    inits = [nn for nn in astx.walk_own(f.node) if isinstance(nn, ast.Assign) and isinstance(nn.targets[0], ast.Subscript) and acc is not None
-             and astx.u(nn.targets[0].value) == astx.u(acc.target.value)]
-    good = acc is not None and len(inits) == 1 and astx.u(inits[0].value) in ("Fraction(0)", "0")
-    augs = [nn for nn in astx.walk_own(f.node) if isinstance(nn, ast.AugAssign)]
-    good = good and all(isinstance(a.op, ast.Add) for a in augs if isinstance(a.target, ast.Subscript))
+    from vk import accum
+    pmc = astx.parents(f.node)
+    accs = [a for a in accum.accumulations(f.node) if re.fullmatch(r"\w+\.weight", astx.u(a.inc))]
+    acc = accs[0].node if accs else None
+    # one accumulation of the source weight per ballot, unconditional, whose first stored value is that weight (sum starts at 0)
+    good = len(accs) == 1 and not accs[0].conditional and accs[0].first == accs[0].inc_key and \
+        isinstance(astx.enclosing(accs[0].node, pmc, ast.For), ast.For)
     ctx.check(good, f, acc or f.node, "condense accumulates += weight from Fraction(0)", "", "the condense accumulator is not `0 then += ballot.weight`")
 
 
